@@ -49,6 +49,9 @@ const hugeIt = 100000
 //  4. the caller's start vector is unchanged.
 func propertyOracle(s *Spec, r *Run) []Failure {
 	var fs []Failure
+	if isSaga(s.Routine) && pure(&s.Obj) {
+		fs = append(fs, sagaRegOracle(s)...) // round 7: runs saga.Run itself, independent of the log
+	}
 	if r.Dropped != "" || !pure(&s.Obj) {
 		return fs
 	}
@@ -59,7 +62,7 @@ func propertyOracle(s *Spec, r *Run) []Failure {
 		return newtonMinOracle(s, r)
 	}
 	if isSaga(s.Routine) {
-		return sagaOracle(s, r)
+		return append(fs, sagaOracle(s, r)...)
 	}
 	if isBlahut(s.Routine) {
 		return blahutOracle(s, r)
@@ -350,8 +353,14 @@ func hunt(o Opts) {
 		}
 	}
 	rng := NewRng(o.Seed ^ 0x5eed)
+	r7n := 0
 	for i := 0; i < o.N; i++ {
-		if i%4 == 3 {
+		if i%16 == 14 { // round 7: Norm users in every dimension 1..12, one slow coordinate
+			consider(normStreamSpec(rng.Split(), r7n, true))
+			r7n++
+		} else if i%32 == 9 { // round 7: saga built-in regularisation against twin and closed form
+			consider(genSagaRegSpec(rng.Split()))
+		} else if i%4 == 3 {
 			consider(genHuntNewton(rng.Split()))
 		} else if i%8 == 2 {
 			consider(genHuntNewtonMin(rng.Split()))
